@@ -283,18 +283,9 @@ func c09EffectSites(fn *ssa.Function, bind c09Bind, isEffect func(call ssa.CallI
 		if g == nil || depth <= 0 || len(g.Blocks) == 0 || fnPkgPath(g) != fnPkgPath(fn) || g == fn {
 			continue
 		}
-		args := call.Common().Args
-		gb := func(v ssa.Value) ssa.Value {
-			if v == nil {
-				return nil
-			}
-			if pf, i := c09ParamOf(v); pf == g && i < len(args) {
-				return bind(args[i])
-			}
-			return nil
-		}
+		gb := c09HelperBind(call, g, bind)
 		inner := c09EffectSites(g, gb, isEffect, depth-1)
-		if len(inner) > 0 && c09NilReturnsPass(g, inner) {
+		if len(inner) > 0 && c09NilReturnsPassNE(g, inner, c09NonEmptyParams(call, g)) {
 			out = append(out, call.(ssa.Instruction))
 		}
 	}
@@ -318,6 +309,139 @@ func c09MayBeNilAtom(g *ssa.Function, a RetAtom) bool {
 		return false
 	}
 	return true
+}
+
+// c09HelperBind translates values of helper g's frame into the frame of its
+// call: parameters -> arguments; a field read through a pointer parameter
+// (r.tagResolver with r = &rebuilt) -> the value stored in that field of the
+// caller's struct; an element of a variadic/slice parameter -> the single
+// element of the literal slice passed.
+func c09HelperBind(call ssa.CallInstruction, g *ssa.Function, outer c09Bind) c09Bind {
+	args := call.Common().Args
+	return func(v ssa.Value) ssa.Value {
+		if v == nil {
+			return nil
+		}
+		if pf, i := c09ParamOf(v); pf == g && i < len(args) {
+			return outer(args[i])
+		}
+		ld, ok := strip(c09Resolved(v)).(*ssa.UnOp)
+		if !ok || ld.Op != token.MUL {
+			return nil
+		}
+		switch a := ld.X.(type) {
+		case *ssa.FieldAddr:
+			if pf, i := c09ParamOf(a.X); pf == g && i < len(args) {
+				if w := c09FieldValue(args[i], a.Field); w != nil {
+					return outer(w)
+				}
+			}
+		case *ssa.IndexAddr:
+			if pf, i := c09ParamOf(a.X); pf == g && i < len(args) {
+				if elems := c09LiteralElems(args[i]); len(elems) == 1 {
+					return outer(elems[0])
+				}
+			}
+		}
+		return nil
+	}
+}
+
+// c09FieldValue: base is (a pointer to) a local struct; the value of its field
+// #field when it is assigned exactly once.
+func c09FieldValue(base ssa.Value, field int) ssa.Value {
+	rb := c09Resolved(base)
+	for depth := 0; depth < 3; depth++ { // a struct captured by a closure: the cell of the enclosing function
+		fv, isFV := rb.(*ssa.FreeVar)
+		if !isFV {
+			break
+		}
+		bs := freeVarBindings(fv)
+		if len(bs) != 1 {
+			return nil
+		}
+		rb = bs[0]
+	}
+	a, ok := rb.(*ssa.Alloc)
+	if !ok || len(storesTo(a)) > 0 {
+		return nil // only structs built field by field (composite literals), never assigned as a whole
+	}
+	var val ssa.Value
+	n := 0
+	for _, ref := range *a.Referrers() {
+		if fa, ok := ref.(*ssa.FieldAddr); ok && fa.Field == field {
+			for _, r2 := range *fa.Referrers() {
+				if st, ok := r2.(*ssa.Store); ok && st.Addr == ssa.Value(fa) {
+					val = st.Val
+					n++
+				}
+			}
+		}
+	}
+	if n != 1 {
+		return nil
+	}
+	return val
+}
+
+// c09LiteralElems: the elements of a slice literal / variadic argument list.
+func c09LiteralElems(v ssa.Value) []ssa.Value {
+	sl, ok := v.(*ssa.Slice)
+	if !ok {
+		return nil
+	}
+	arr, ok := sl.X.(*ssa.Alloc)
+	if !ok {
+		return nil
+	}
+	var out []ssa.Value
+	for _, ref := range *arr.Referrers() {
+		if ia, ok := ref.(*ssa.IndexAddr); ok {
+			for _, r2 := range *ia.Referrers() {
+				if st, ok := r2.(*ssa.Store); ok && st.Addr == ssa.Value(ia) {
+					out = append(out, st.Val)
+				}
+			}
+		}
+	}
+	return out
+}
+
+// c09NonEmptyParams: slice parameters of g that receive a non-empty literal at this call.
+func c09NonEmptyParams(call ssa.CallInstruction, g *ssa.Function) map[*ssa.Parameter]bool {
+	out := map[*ssa.Parameter]bool{}
+	for i, a := range call.Common().Args {
+		if i < len(g.Params) && len(c09LiteralElems(a)) > 0 {
+			out[g.Params[i]] = true
+		}
+	}
+	return out
+}
+
+// c09NilReturnsPassNE = c09NilReturnsPass, where a range loop over a parameter
+// known to be non-empty, every iteration of which executes one of the
+// instructions, counts as executing it.
+func c09NilReturnsPassNE(g *ssa.Function, ins []ssa.Instruction, nonEmpty map[*ssa.Parameter]bool) bool {
+	all := append([]ssa.Instruction{}, ins...)
+	for _, it := range c09ItersIn(g) {
+		if it.Loop == nil || it.Coll == nil {
+			continue
+		}
+		pf, i := c09ParamOf(it.Coll)
+		if pf != g || !nonEmpty[g.Params[i]] {
+			continue
+		}
+		b, bi := it.BodyStart()
+		if !it.ContinuesWithout(b, bi, newCut().Instr(ins...)) {
+			// the loop runs at least once: leaving it means an iteration was completed
+			for _, e := range it.Loop.Exits {
+				if e.From == it.Loop.Header && len(e.To.Instrs) > 0 {
+					all = append(all, e.To.Instrs[0])
+				}
+			}
+		}
+	}
+	return c09NilReturnsPass(g, all)
 }
 
 // c09NilReturnsPass: every return of g that may carry a nil error (every return,
